@@ -537,3 +537,76 @@ fn c16_successor_name_text() {
     wit!(n == 0);
     core::mem::forget(id);
 }
+
+/// Twins of c16_archive_name_wellformed with a CONCRETE suffix (and concrete site), so that a parser
+/// which locates the fields by searching for separators instead of by position is decided as well
+/// (with a free suffix such a parser's search positions are symbolic: out of 12 GB).
+fn archive_wellformed_suffix(suffix: &[u8]) {
+    let mut b = [0u8; 24];
+    b[0] = b'K';
+    b[1] = b'T';
+    b[2] = b'L';
+    b[3] = b'X';
+    let d: [u8; 14] = kani::any();
+    kani::assume(all_digits(&d));
+    let two = |h: u8, l: u8| (h - b'0') * 10 + (l - b'0');
+    kani::assume(two(d[4], d[5]) >= 1 && two(d[4], d[5]) <= 12 && two(d[6], d[7]) >= 1 && two(d[6], d[7]) <= 28);
+    kani::assume(two(d[8], d[9]) <= 23 && two(d[10], d[11]) <= 59 && two(d[12], d[13]) <= 59);
+    let mut i = 0;
+    while i < 8 {
+        b[4 + i] = d[i];
+        i += 1;
+    }
+    b[12] = b'_';
+    let mut i = 0;
+    while i < 6 {
+        b[13 + i] = d[8 + i];
+        i += 1;
+    }
+    let mut i = 0;
+    while i < suffix.len() {
+        b[19 + i] = suffix[i];
+        i += 1;
+    }
+    let n = 19 + suffix.len();
+    let s = unsafe { String::from_utf8_unchecked(b[..n].to_vec()) };
+    let id = Identifier::new(s);
+    let dt = id.date_time();
+    assert!(dt.is_some(), "C16: date-time not recovered from a well-formed archive name (any suffix)");
+    let (sd, st) = unsafe { (SEEN_DATE, SEEN_TIME) };
+    match (sd, st) {
+        (Some(dd), Some(tt)) => {
+            let mut i = 0;
+            while i < 8 {
+                assert!(dd[i] == d[i], "C16: date parsed from something other than bytes 4..12");
+                i += 1;
+            }
+            let mut i = 0;
+            while i < 6 {
+                assert!(tt[i] == d[8 + i], "C16: time parsed from something other than bytes 13..19");
+                i += 1;
+            }
+        }
+        _ => panic!("C16: date or time parser not reached on a well-formed archive name"),
+    }
+    wit!(d[13] == b'7');
+    core::mem::forget(id);
+}
+
+macro_rules! archive_suffix_harness {
+    ($name:ident, $suffix:expr) => {
+        #[kani::proof]
+        #[kani::unwind(28)]
+        #[kani::stub(chrono::NaiveDate::parse_from_str, rec_date_parse)]
+        #[kani::stub(chrono::NaiveTime::parse_from_str, rec_time_parse)]
+        #[kani::stub(core::slice::memchr::memchr, crate::stubs::memchr_naive)]
+        #[kani::stub(core::slice::memchr::memrchr, crate::stubs::memrchr_naive)]
+        fn $name() {
+            archive_wellformed_suffix($suffix);
+        }
+    };
+}
+archive_suffix_harness!(c16_archive_suffix_none, b"");
+archive_suffix_harness!(c16_archive_suffix_gz, b".gz");
+archive_suffix_harness!(c16_archive_suffix_v06, b"V06");
+archive_suffix_harness!(c16_archive_suffix_us_v06, b"_V06");
